@@ -285,13 +285,12 @@ func runTPCAcceptor(c *core.Ctx) {
 			return cc
 		}
 		inArm := func(n ast.Node, k types.Object) bool {
-			cc := clauseOf(n)
-			if cc == nil {
-				return false
-			}
-			for _, ex := range cc.List {
-				if selectedOrIdentObj(info, ex) == k {
-					return true
+			// any enclosing clause: the arm's body may itself contain switch statements
+			for cc := clauseOf(n); cc != nil; cc = clauseOf(g.Parent(cc)) {
+				for _, ex := range cc.List {
+					if selectedOrIdentObj(info, ex) == k {
+						return true
+					}
 				}
 			}
 			return false
@@ -350,23 +349,14 @@ func runTPCAcceptor(c *core.Ctx) {
 			c.Bad("receiveInternal:precommit-accepts", recv.Pos(), "the PreCommit arm never records an accepted pre-commit")
 		}
 		for i, ac := range accepts {
-			ok := false
-			for _, cd := range g.CondAtoms(func(ex ast.Expr) bool {
-				found := false
-				ast.Inspect(ex, func(m ast.Node) bool {
-					if call, isCall := m.(*ast.CallExpr); isCall {
-						if f := an.CalleeFunc(info, call); f != nil && f.Name() == "canAcceptPreCommit" {
-							found = true
-						}
-					}
-					return true
-				})
-				return found
-			}) {
-				if g.GuardedBy(ac, cd, true) {
-					ok = true
+			ok := guardedByLeaf(g, ac, func(leaf ast.Expr) (bool, bool) {
+				call, isCall := an.Unparen(leaf).(*ast.CallExpr)
+				if !isCall {
+					return false, false
 				}
-			}
+				f := an.CalleeFunc(info, call)
+				return f != nil && f.Name() == "canAcceptPreCommit", true
+			})
 			c.Check(ok, fmt.Sprintf("receiveInternal:precommit#%d-respects-local-section", i+1), ac.Pos(), "a pre-commit is accepted only if the local critical-section state allows it",
 				"a pre-commit is accepted without consulting canAcceptPreCommit(): a replica that is itself in pre-commit would accept a competitor, so two proposers can both collect a majority")
 		}
@@ -377,26 +367,37 @@ func runTPCAcceptor(c *core.Ctx) {
 		releases := g.FindAtoms(func(a ast.Node) bool { return setsState(info, a, initial) })
 		ok := false
 		for _, r := range releases {
-			for _, cd := range g.CondAtoms(func(ex ast.Expr) bool {
-				hasState, hasVer := false, false
-				ast.Inspect(ex, func(m ast.Node) bool {
-					if be, isBin := m.(*ast.BinaryExpr); isBin {
-						if be.Op == token.EQL && an.SelectedField(info, be.X) == state && an.ObjOf(info, be.Y) == accepted {
-							hasState = true
-						}
-						if be.Op == token.LEQ {
-							if sel, isSel := an.Unparen(be.X).(*ast.SelectorExpr); isSel && sel.Sel.Name == "Version" && an.SelectedField(info, sel.X) == held {
-								hasVer = true
-							}
-						}
-					}
-					return true
-				})
-				return hasState && hasVer
-			}) {
-				if g.GuardedBy(r, cd, true) {
-					ok = true
+			// both conditions guard the release (in one test or in nested ones)
+			heldState := guardedByLeaf(g, r, func(leaf ast.Expr) (bool, bool) {
+				be, isBin := an.Unparen(leaf).(*ast.BinaryExpr)
+				if !isBin || (be.Op != token.EQL && be.Op != token.NEQ) {
+					return false, false
 				}
+				x, y := be.X, be.Y
+				if an.SelectedField(info, x) != state {
+					x, y = y, x
+				}
+				return an.SelectedField(info, x) == state && an.ObjOf(info, y) == accepted, be.Op == token.EQL
+			})
+			decided := guardedByLeaf(g, r, func(leaf ast.Expr) (bool, bool) {
+				be, isBin := an.Unparen(leaf).(*ast.BinaryExpr)
+				if !isBin {
+					return false, false
+				}
+				isHeldVersion := func(x ast.Expr) bool {
+					sel, isSel := an.Unparen(x).(*ast.SelectorExpr)
+					return isSel && sel.Sel.Name == "Version" && an.SelectedField(info, sel.X) == held
+				}
+				switch {
+				case be.Op == token.LEQ && isHeldVersion(be.X), be.Op == token.GEQ && isHeldVersion(be.Y):
+					return true, true
+				case be.Op == token.GTR && isHeldVersion(be.X), be.Op == token.LSS && isHeldVersion(be.Y):
+					return true, false
+				}
+				return false, false
+			})
+			if heldState && decided {
+				ok = true
 			}
 		}
 		c.Check(ok, "acceptNewValue:releases-decided-precommit", acc.Pos(), "installing version v releases a held pre-commit of version <= v",
@@ -408,17 +409,25 @@ func runTPCAcceptor(c *core.Ctx) {
 			rhs, isSet := fieldIsAssigned(info, a, cs)
 			return isSet && rhs != nil && an.ObjOf(info, rhs) == poison
 		}) {
-			for _, cd := range g.CondAtoms(func(ex ast.Expr) bool {
-				call, isCall := an.Unparen(ex).(*ast.CallExpr)
-				if !isCall {
-					return false
+			notIn := sc.Lookup("notInCriticalSection")
+			if guardedByLeaf(g, a, func(leaf ast.Expr) (bool, bool) {
+				switch x := an.Unparen(leaf).(type) {
+				case *ast.CallExpr:
+					f := an.CalleeFunc(info, x)
+					return f != nil && f.Name() == "inCriticalSection", true
+				case *ast.BinaryExpr:
+					if x.Op != token.EQL && x.Op != token.NEQ {
+						return false, false
+					}
+					l, r := x.X, x.Y
+					if an.SelectedField(info, l) != cs {
+						l, r = r, l
+					}
+					return an.SelectedField(info, l) == cs && notIn != nil && an.ObjOf(info, r) == notIn, x.Op == token.NEQ
 				}
-				f := an.CalleeFunc(info, call)
-				return f != nil && f.Name() == "inCriticalSection"
+				return false, false
 			}) {
-				if g.GuardedBy(a, cd, true) {
-					poisons = true
-				}
+				poisons = true
 			}
 		}
 		c.Check(poisons, "acceptNewValue:poisons-section-in-flight", acc.Pos(), "a section that is in flight when a new value is installed is marked as failed",
